@@ -8,14 +8,32 @@ Driver commands of the monitor properties C14 / C16 / C10.
         -> ok raised=<0|1> changed=<0|1> autocommit=<0|1> durable=<ids> trace=<kinds, ! = injected>
      the Model's run of the call under that fault plan; every write appends its
      position to a log, so `changed` = something became durable.
+  c16.run <kinds>                   -> ok observer=<0|1> unchanged=<0|1> repeat=<0|1> nowrite=<0|1> closed=<0|1>
+     the operation with these statements (every write appends to a log, the answer is the whole visible
+     database) applied twice through `Observe.run` from rest: `isObserver`, "connection state as before",
+     "both answers equal"; and the weaker criteria of C16_no_write_no_change / C10.
   c10.reload <schema>               -> ok <schema detected after stamping>   (Gen.Detect)
   c10.col <existing-schema|none> <requested-schema>
         -> ok created=<0|1> schema=<…>                                (create_or_load logic)
+  dir.run <shape> <entry> <schema-1.x> <schema-2.x>
+        -> ok a1=<answer> a2=<answer> after=<shape>
+     the directory model (Spec/Dir.lean) on the shape of harness `c16.probe` (N0 | <m><p><d>), the entry point
+     applied twice; answers: 1 | 0 | loaded_<schema> | created | throw:<class>
+  dir.layout <schema>               -> ok <shape the creator of <schema> leaves in an empty directory>
+  c14.skel <kinds>                  -> ok <skeleton: reads dropped, the writes of one scope counted once>
+  c14.allowed <v1|v2> <operation>   -> ok <skeletons the concrete model's operation can have, '|' separated>
+     | ok unmodelled     (public operation names as in tools/props/C14.py, without the '(...)' suffix)
 `<kinds>` is a comma separated list of begin|commit|rollback|write|read, `-` = empty.
 -/
 import EngineModel.Driver.Text
 import EngineModel.Spec.Txn
 import EngineModel.Spec.Observe
+import EngineModel.Spec.Dir
+import EngineModel.Spec.Stmts
+import EngineModel.Api.CratesV1Stmts
+import EngineModel.Db.V2CratesStmts
+import EngineModel.TracksV2.Stmts
+import EngineModel.TracksV1.Stmts
 import EngineModel.Pure.Detect
 import EngineModel.Gen.DetectGen
 
@@ -40,6 +58,109 @@ def txnExec (fault : Option Nat) (auto : Bool) (ks : List CmdKind) : String :=
   s!"ok raised={b01 r.raised} changed={b01 (!r.conn.committed.isEmpty)} " ++
   s!"autocommit={b01 r.conn.working.isNone} durable={durable} trace={showTrace r.trace}"
 
+def c16Run (ks : List CmdKind) : String :=
+  let op : Op (List Nat) (List Nat) := ⟨logCmds ks 0, id⟩
+  let r := run (Conn.idle ([] : List Nat)) [op, op]
+  let unchanged := r.1.committed.isEmpty && r.1.working.isNone
+  let rep := match r.2 with
+    | [some a, some b] => a == b
+    | _ => false
+  s!"ok observer={b01 (isObserver op)} unchanged={b01 unchanged} repeat={b01 rep} " ++
+  s!"nowrite={b01 (ks.all (· != .write))} closed={b01 (closedShape ks)}"
+
+/-- `track::set_<name>` of the 2.x model -/
+def v2Setter : String → Option TracksV2.Setter
+  | "album" => some (.album none) | "artist" => some (.artist none) | "average_loudness" => some (.averageLoudness none)
+  | "beatgrid" => some (.beatgrid []) | "bitrate" => some (.bitrate none) | "bpm" => some (.bpm none)
+  | "comment" => some (.comment none) | "composer" => some (.composer none) | "duration" => some (.duration none)
+  | "genre" => some (.genre none) | "hot_cue_at" => some (.hotCueAt 0 none) | "hot_cues" => some (.hotCues [])
+  | "key" => some (.key none) | "last_played_at" => some (.lastPlayedAt none) | "loop_at" => some (.loopAt 0 none)
+  | "loops" => some (.loops []) | "main_cue" => some (.mainCue none) | "publisher" => some (.publisher none)
+  | "rating" => some (.rating none) | "relative_path" => some (.relativePath []) | "sample_count" => some (.sampleCount none)
+  | "sample_rate" => some (.sampleRate none) | "title" => some (.title none) | "track_number" => some (.trackNumber none)
+  | "waveform" => some (.waveform []) | "year" => some (.year none)
+  | _ => none
+
+/-- `track::set_<name>` of the 1.x model -/
+def v1Field : String → Option TracksV1.Field
+  | "album" => some .album | "artist" => some .artist | "average_loudness" => some .averageLoudness
+  | "beatgrid" => some .beatgrid | "bitrate" => some .bitrate | "bpm" => some .bpm
+  | "comment" => some .comment | "composer" => some .composer | "duration" => some .duration
+  | "genre" => some .genre | "hot_cue_at" => some (.hotCueAt 0) | "hot_cues" => some .hotCues
+  | "key" => some .key | "last_played_at" => some .lastPlayedAt | "loop_at" => some (.loopAt 0)
+  | "loops" => some .loops | "main_cue" => some .mainCue | "publisher" => some .publisher
+  | "rating" => some .rating | "relative_path" => some .relativePath | "sample_count" => some .sampleCount
+  | "sample_rate" => some .sampleRate | "title" => some .title | "track_number" => some .trackNumber
+  | "waveform" => some .waveform | "year" => some .year
+  | _ => none
+
+open Spec.Stmts in
+/-- the skeletons of the concrete statement programs, by public operation name -/
+def c14Allowed (gen op : String) : Option (List Skeleton) :=
+  let v1 (o : Api.CratesV1.Op) : Option (List Skeleton) := some [Api.CratesV1.skeletonOf o]
+  let v2 (o : Db.V2.Op) : Option (List Skeleton) := some (Db.V2.allowed o)
+  match gen, op with
+  | "v1", "create_root_crate" | "v1", "create_root_crate_after" => v1 (.createRoot [])
+  | "v1", "create_sub_crate" | "v1", "create_sub_crate_after" => v1 (.createSub 0 [])
+  | "v1", "crate.set_name" => v1 (.rename 0 [])
+  | "v1", "crate.set_parent" => v1 (.setParent 0 none)
+  | "v1", "remove_crate" => v1 (.removeCrate 0)
+  | "v1", "crate.add_track" => v1 (.addTrack 0 0)
+  | "v1", "crate.remove_track" => v1 (.removeTrackFrom 0 0)
+  | "v1", "crate.clear_tracks" => v1 (.clearTracks 0)
+  | "v1", "create_track" => v1 .createTrack
+  | "v1", "remove_track" => v1 (.removeTrack 0)
+  | "v2", "create_root_crate" => v2 (.createRoot [])
+  | "v2", "create_root_crate_after" => v2 (.createRootAfter [] 0)
+  | "v2", "create_sub_crate" => v2 (.createSub 0 [])
+  | "v2", "create_sub_crate_after" => v2 (.createSubAfter 0 [] 0)
+  | "v2", "crate.set_name" => v2 (.rename 0 [])
+  | "v2", "crate.set_parent" => v2 (.setParent 0 none)
+  | "v2", "remove_crate" => v2 (.removeCrate 0)
+  | "v2", "crate.add_track" => v2 (.addTrack 0 0)
+  | "v2", "crate.remove_track" => v2 (.removeTrackFrom 0 0)
+  | "v2", "crate.clear_tracks" => v2 (.clearTracks 0)
+  | "v2", "create_track" => v2 .createTrack
+  | "v2", "remove_track" => v2 (.removeTrack 0)
+  | "v2", "track.update" => some [(TracksV2.TOp.update 0 default).skeleton]
+  | "v1", "track.update" => some [(TracksV1.TOp.update 0 default).skeleton]
+  | "v2", name =>
+    if name.startsWith "track.set_" then (v2Setter (name.drop 10).toString).map fun σ => [(TracksV2.TOp.set 0 σ).skeleton] else none
+  | "v1", name =>
+    if name.startsWith "track.set_" then (v1Field (name.drop 10).toString).map fun f => [if f.scoped then .scope else .single] else none
+  | _, _ => none
+
+open Pure.Detect Spec.Dir in
+def dirEntry (entry : String) (d : Dir) : Option (Dir × String) :=
+  let showS (r : Res Schema) : String := showRes (fun s => "loaded_" ++ s.name) r
+  let showB (r : Res Bool) : String := showRes (fun b => if b then "1" else "0") r
+  let col (req : Schema) : Option (Dir × String) :=
+    let r := createOrLoadAt d req
+    some (r.dir, match r.res with
+      | .ok s => if r.created then "created" else "loaded_" ++ s.name
+      | e => showS e)
+  match entry with
+  | "engine.database_exists" => let r := databaseExists d; some (r.1, showB r.2)
+  | "engine.load_database" | "engine.load_database(1-arg)" | "engine.load_and_observe" =>
+    let r := loadDatabase d; some (r.1, showS r.2)
+  | "engine.create_or_load_database(1.x)" => col .schema_1_18_0_os
+  | "engine.create_or_load_database(2.x)" | "engine.create_or_load_database(3-arg)" => col .schema_2_21_2
+  | "v2.engine_library.exists" => let r := v2Exists d; some (r.1, showB r.2)
+  | "v2.engine_library.load" | "v2.engine_library.load_and_observe" => let r := v2Load d; some (r.1, showS r.2)
+  | _ => none
+
+open Pure.Detect Spec.Dir in
+def dirRun (sh entry : String) (s1 s2 : Schema) : String :=
+  match Dir.ofShape sh s1 s2 with
+  | none => "bad-op shape"
+  | some d =>
+    match dirEntry entry d with
+    | none => "bad-op entry"
+    | some (d1, a1) =>
+      match dirEntry entry d1 with
+      | none => "bad-op entry"
+      | some (d2, a2) => s!"ok a1={a1} a2={a2} after={d2.shape}"
+
 open Pure.Detect in
 def monitorsTable (cmd : String) (args : List String) : Option String :=
   match cmd, args with
@@ -59,6 +180,9 @@ def monitorsTable (cmd : String) (args : List String) : Option String :=
       match parseKinds k, (if f = "none" then some none else f.toNat?.map some) with
       | some ks, some fault => txnExec fault (a == "1") ks
       | _, _ => "bad-op args")
+  | "c16.run", [k] => some (match parseKinds k with
+      | some ks => c16Run ks
+      | none => "bad-op kind")
   | "c10.reload", [s] => some (match Schema.ofName s with
       | some s => (loadCreated s).render
       | none => "bad-op schema")
@@ -69,6 +193,19 @@ def monitorsTable (cmd : String) (args : List String) : Option String :=
         | (created, .loaded s) => s!"ok created={b01 created} schema={s.name}"
         | (_, o) => o.render
       | _, _ => "bad-op schema")
+  | "c14.skel", [k] => some (match parseKinds k with
+      | some ks => "ok " ++ Spec.Stmts.showKinds (Spec.Stmts.skeleton ks)
+      | none => "bad-op kind")
+  | "c14.allowed", [gen, op] => some (match c14Allowed gen op with
+      | some l => "ok " ++ "|".intercalate (l.map Spec.Stmts.Skeleton.name)
+      | none => "ok unmodelled")
+  | "dir.run", [sh, en, s1, s2] => some (
+      match Schema.ofName s1, Schema.ofName s2 with
+      | some s1, some s2 => dirRun sh en s1 s2
+      | _, _ => "bad-op schema")
+  | "dir.layout", [s] => some (match Schema.ofName s with
+      | some s => "ok " ++ (Spec.Dir.createDatabase Spec.Dir.emptyDir s).1.shape
+      | none => "bad-op schema")
   | _, _ => none
 
 end Drv
